@@ -180,6 +180,8 @@ def finish(bld, container_geom, lat_cell, fill_of_container, trcl=None,
         deck.tags.add('cells.unordered')
     if bld.rng.random() < 0.3:
         M.shuffle_options(deck, bld.rng)
+    if bld.rng.random() < 0.3:
+        M.vary_largest_surface(deck, bld.rng)
     return deck
 
 
